@@ -52,9 +52,8 @@ def _layout_lock(ctx, cl):
             ctx.check(ok, 'LOCK', 'PLSSDesc.__init__: the layout keyword overrides the config only when given',
                       detail_bad=f"`{norm(s)}` under {gs}: a layout given in the config string is lost",
                       key="LOCK|PLSSDesc.__init__|layout", where=common.loc(init, s))
-    ctx.check('layout' in ctx.fold.get_attr('config.config', 'Config', '_PLSSDESC_ATTRIBUTES'), 'LOCK',
-              'layout is a PLSSDesc config attribute', detail_bad="layout dropped from _PLSSDESC_ATTRIBUTES",
-              key="LOCK|Config|layout")
+    ctx.shape('layout' in ctx.fold.get_attr('config.config', 'Config', '_PLSSDESC_ATTRIBUTES'), 'LOCK',
+              'layout is a PLSSDesc config attribute')
     p = ctx.repo.func('PLSSDesc.parse')
     calls = [c for c in walk_local(p.node) if isinstance(c, ast.Call) and dotted(c.func) == 'PLSSParser']
     if len(calls) != 1:
@@ -65,6 +64,18 @@ def _layout_lock(ctx, cl):
               'PLSSDesc.parse: layout = keyword if given, else the .layout attribute',
               detail_bad="the layout handed to PLSSParser does not derive from both the keyword and self.layout",
               key="LOCK|PLSSDesc.parse|layout")
+    # the attribute is consulted only when no layout argument was given
+    fbs = [n for n in walk_local(p.node) if isinstance(n, ast.Assign) and norm(n) == 'layout = self.layout']
+    for n in fbs:
+        gs = [(norm(t).replace('None is layout', 'layout is None').replace('None is not layout', 'layout is not None'), pol)
+              for t, pol in guards(n)]
+        ok_g = any((pol and ('layout is None' in t and 'layout is not None' not in t or t == 'not layout'))
+                   or (not pol and t in ('layout is not None', 'layout')) for t, pol in gs)
+        bad_g = not gs or not any('layout' in t.replace('self.layout', '') for t, pol in gs)
+        ctx.tri(ok_g, bad_g and not ok_g, 'LOCK', 'PLSSDesc.parse: `.layout` is the fallback only when no layout argument is given',
+                detail_bad=f"`layout = self.layout` runs under {gs or 'no condition'}: a layout passed to parse() is "
+                           f"overridden by the attribute", key="LOCK|PLSSDesc.parse|layout-fallback-guard",
+                where=common.loc(p, n))
     # segment is switched off for the layout that is actually used
     offs = [n for n in walk_local(p.node) if isinstance(n, ast.Assign) and norm(n) == 'segment = False']
     ok = False
@@ -85,62 +96,70 @@ def _layout_lock(ctx, cl):
     fb = [n for n in walk_local(p.node) if isinstance(n, ast.Assign) and norm(n) == 'layout = self.layout']
     if fb and offs:
         cfg, _ = flow.analyse(p.node)
-        ctx.check(cfg.precedes_always(enclosing_stmt(fb[0])._parent if isinstance(enclosing_stmt(fb[0])._parent, ast.If) else fb[0],
+        ctx.shape(cfg.precedes_always(enclosing_stmt(fb[0])._parent if isinstance(enclosing_stmt(fb[0])._parent, ast.If) else fb[0],
                                       offs[0]._parent), 'LOCK',
-                  'PLSSDesc.parse resolves the layout before deciding about segmenting',
-                  detail_bad="segment decision precedes the layout fallback", key="LOCK|PLSSDesc.parse|order")
+                  'PLSSDesc.parse resolves the layout before deciding about segmenting')
     # PLSSParser
     pi = ctx.repo.func('PLSSParser.__init__')
     t = [norm(s) for s in walk_local(pi.node) if isinstance(s, ast.stmt)]
-    ctx.check('self.mandate_layout = not segment and layout is not None' in t, 'LOCK',
-              'PLSSParser: a given layout is mandatory unless segmenting',
-              detail_bad="mandate_layout changed", key="LOCK|PLSSParser.__init__|mandate")
+    ctx.shape('self.mandate_layout = not segment and layout is not None' in t, 'LOCK',
+              'PLSSParser: a given layout is mandatory unless segmenting')
     ok = any(isinstance(n, ast.If) and norm(n.test) == 'clean_up is None' and
              'clean_up = True' in [norm(s) for s in n.body] and any(
                  isinstance(s, ast.If) and norm(s.test) == 'layout == COPY_ALL'
                  and 'clean_up = False' in [norm(x) for x in s.body] for s in n.body)
              for n in pi.node.body)
-    ctx.check(ok, 'LOCK', 'PLSSParser: copy_all text is not cleaned up by default',
-              detail_bad="clean_up default for copy_all changed (the text would be stripped)",
-              key="LOCK|PLSSParser.__init__|clean_up")
+    ctx.shape(ok, 'LOCK', 'PLSSParser: copy_all text is not cleaned up by default')
     pp = ctx.repo.func('PLSSParser.parse')
-    asg = [n for n in walk_local(pp.node) if isinstance(n, ast.Assign) and norm(n.targets[0]) == 'chunk_layout'
-           and norm(n.value) in ('self.layout', 'COPY_ALL')]
-    ok = False
-    for n in asg:
-        for tst, pol in guards(n):
-            if not pol:
-                continue
-            disj = [norm(v) for v in tst.values] if isinstance(tst, ast.BoolOp) and isinstance(tst.op, ast.Or) else [norm(tst)]
-            if 'self.layout == COPY_ALL' in disj:
-                ok = True
-    ctx.check(ok, 'LOCK', 'PLSSParser.parse: copy_all reaches every ChunkParser (also when segmenting)',
-              detail_bad="chunk_layout is no longer set whenever self.layout == COPY_ALL: with segmenting on, "
-                         "the chunks are parsed with a deduced layout",
-              key="LOCK|PLSSParser.parse|chunk_layout")
+    conds = []
+    for n in walk_local(pp.node):
+        if isinstance(n, ast.Assign) and norm(n.targets[0]) == 'chunk_layout':
+            if norm(n.value) in ('self.layout', 'COPY_ALL'):
+                conds += [tst for tst, pol in guards(n) if pol]
+            elif isinstance(n.value, ast.IfExp) and norm(n.value.body) in ('self.layout', 'COPY_ALL'):
+                conds.append(n.value.test)
+    def disjuncts(tst):
+        return [norm(v) for v in tst.values] if isinstance(tst, ast.BoolOp) and isinstance(tst.op, ast.Or) else [norm(tst)]
+    def mentions_copyall(c):
+        if 'COPY_ALL' in norm(c):
+            return True
+        for nm_ in [x for x in ast.walk(c) if isinstance(x, ast.Name)]:
+            pv_ = flow.provenance(pp.node, nm_)
+            if ('global', 'COPY_ALL') in pv_:
+                return True
+        return False
+    ok = any('self.layout == COPY_ALL' in disjuncts(c) or 'COPY_ALL == self.layout' in disjuncts(c) for c in conds) \
+        or any(mentions_copyall(c) for c in conds)
+    bad = bool(conds) and not any(mentions_copyall(c) for c in conds)
+    ctx.tri(ok, bad, 'LOCK', 'PLSSParser.parse: copy_all reaches every ChunkParser (also when segmenting)',
+            detail_bad="chunk_layout is only set under a condition that does not mention COPY_ALL: with segmenting on "
+                       "(no mandate), a copy_all layout is not handed to the chunk parsers",
+            key="LOCK|PLSSParser.parse|chunk_layout")
     cc = [c for c in walk_local(pp.node) if isinstance(c, ast.Call) and dotted(c.func) == 'ChunkParser']
-    ctx.check(len(cc) == 1 and any(k.arg == 'layout' and norm(k.value) == 'chunk_layout' for k in cc[0].keywords)
+    ctx.shape(len(cc) == 1 and any(k.arg == 'layout' and norm(k.value) == 'chunk_layout' for k in cc[0].keywords)
               and any(k.arg == 'parent' and norm(k.value) == 'self' for k in cc[0].keywords), 'LOCK',
-              'PLSSParser.parse builds one ChunkParser per chunk with that layout',
-              detail_bad="ChunkParser construction changed", key="LOCK|PLSSParser.parse|ChunkParser")
+              'PLSSParser.parse builds one ChunkParser per chunk with that layout')
     pc = ctx.repo.func('ChunkParser.parse_chunk')
     ded = [n for n in walk_local(pc.node) if isinstance(n, ast.Assign) and norm(n) == 'chunk_layout = deduce_layout(chunk)']
     ok = bool(ded) and any(pol and 'chunk_layout != COPY_ALL' in norm(t) and 'not self.parent.mandate_layout' in norm(t)
                            and isinstance(t, ast.BoolOp) and isinstance(t.op, ast.And) for t, pol in guards(ded[0]))
-    ctx.check(ok, 'LOCK', 'parse_chunk: deduction never overrides copy_all or a mandated layout',
-              detail_bad="chunk-level deduce_layout is no longer guarded by `!= COPY_ALL and not mandate_layout`",
-              key="LOCK|parse_chunk|deduce")
+    gtxt = ' '.join(norm(t) for t, pol in guards(ded[0])) if ded else ''
+    ctx.tri(ok, bool(ded) and 'COPY_ALL' not in gtxt and 'mandate_layout' not in gtxt, 'LOCK',
+            'parse_chunk: deduction never overrides copy_all or a mandated layout',
+            detail_bad="chunk-level deduce_layout runs unguarded: a forced layout is re-deduced per chunk",
+            key="LOCK|parse_chunk|deduce")
     cp = [n for n in walk_local(pc.node) if isinstance(n, ast.If) and norm(n.test) == 'chunk_layout == COPY_ALL']
     ok = bool(cp) and [norm(s) for s in cp[0].body] == ['self._parse_copyall(chunk)', 'return None']
-    ctx.check(ok, 'LOCK', 'parse_chunk: copy_all -> _parse_copyall(chunk) and nothing else',
-              detail_bad="copy_all branch of parse_chunk changed", key="LOCK|parse_chunk|copyall-branch")
+    ctx.shape(ok, 'LOCK', 'parse_chunk: copy_all -> _parse_copyall(chunk) and nothing else')
     seg = ctx.repo.func('PLSSChunker.segment')
     ok = any(isinstance(n, ast.If) and 'layout == COPY_ALL' in norm(n.test) and isinstance(n.test, ast.BoolOp)
              and isinstance(n.test.op, ast.Or)
              and [norm(s) for s in n.body][:1] == ['self.blocks.append(text)']
              and any(isinstance(s, ast.Return) for s in n.body) for n in seg.node.body)
-    ctx.check(ok, 'LOCK', 'PLSSChunker.segment keeps copy_all text in one block',
-              detail_bad="segment() no longer returns the whole text for copy_all", key="LOCK|segment|copyall")
+    seg_txt = ' '.join(norm(x) for x in walk_local(seg.node) if isinstance(x, ast.stmt))
+    ctx.tri(ok, 'COPY_ALL' not in seg_txt, 'LOCK', 'PLSSChunker.segment keeps copy_all text in one block',
+            detail_bad="segment() no longer treats copy_all specially: a copy_all text that contains Twp/Rges is cut into chunks",
+            key="LOCK|segment|copyall")
 
 
 def _once(ctx):
@@ -149,8 +168,7 @@ def _once(ctx):
     ok = 'handoff' in init.params() and any(
         isinstance(n, ast.If) and norm(n.test) == 'handoff' and [norm(s) for s in n.body] == ['self.parse_safe()']
         and [norm(s) for s in n.orelse] == ['self.parse_chunk()'] for n in init.node.body)
-    ctx.check(ok, 'ONCE', 'ChunkParser: hands off (parse_safe) unless told to stage only',
-              detail_bad="handoff switch of ChunkParser.__init__ changed", key="ONCE|ChunkParser.__init__|handoff")
+    ctx.shape(ok, 'ONCE', 'ChunkParser: hands off (parse_safe) unless told to stage only')
     # every ChunkParser built inside ChunkParser is a stage-only replacement
     ci = ctx.repo.cls('plss_parse:ChunkParser')
     n = 0
@@ -166,9 +184,8 @@ def _once(ctx):
                           "by the original: the fallback tract (and its flags) appear twice",
                           key=f"ONCE|{m.qualname}|replacement", where=common.loc(m, c))
                 args = [norm(a) for a in c.args]
-                ctx.check(args[:2] == ['self.text', 'COPY_ALL'], 'ONCE',
-                          f"{m.qualname}: the replacement re-parses the whole chunk text as copy_all",
-                          detail_bad=f"replacement built with {args}", key=f"ONCE|{m.qualname}|replacement-args")
+                ctx.shape(args[:2] == ['self.text', 'COPY_ALL'], 'ONCE',
+                          f"{m.qualname}: the replacement re-parses the whole chunk text as copy_all")
     ctx.floor('replacement ChunkParser sites', n, 1)
     safe = ctx.repo.func('ChunkParser.parse_safe')
     ext = [norm(c) for c in walk_local(safe.node) if isinstance(c, ast.Call) and isinstance(c.func, ast.Attribute)
@@ -195,37 +212,51 @@ def _copyall(ctx):
         key="TBL|_parse_copyall|once")
     if len(calls) != 1:
         return
-    a = calls[0].args
+    stp = ctx.repo.func('ChunkParser._stage_new_tract').params()[1:]
+    amap = {}
+    for nm_, av in zip(stp, calls[0].args):
+        amap[nm_] = av
+    for k_ in calls[0].keywords:
+        if k_.arg:
+            amap[k_.arg] = k_.value
+    if not {'desc', 'sec'} <= set(amap):
+        ctx.undecided('DEFUSE', '_parse_copyall staging arguments', 'arguments not recognised')
+        return
+    a = [amap['desc'], amap['sec']]
     txtparam = fi.params()[1]
     roots = alias_roots(fi, a[0]) if isinstance(a[0], ast.Name) else {('expr', norm(a[0]))}
-    ctx.check(roots == {('param', txtparam)}, 'DEFUSE', '_parse_copyall stages the unmodified chunk text',
-              detail_bad=f"the staged description is {sorted(roots)}, not the chunk text as given",
-              key="DEFUSE|_parse_copyall|text")
+    ctx.tri(roots == {('param', txtparam)}, any(k_ == 'fresh' for k_, _ in roots), 'DEFUSE',
+            '_parse_copyall stages the unmodified chunk text',
+            detail_bad=f"the staged description is {sorted(roots)}, not the chunk text as given (cleaned / cut)",
+            key="DEFUSE|_parse_copyall|text")
     # a single section
     cfg, rd = flow.analyse(fi.node)
     node = flow.stmt_node(cfg, a[1])
     defs = [rd.defs[d] for d in rd.reaching(node, a[1].id)] if isinstance(a[1], ast.Name) else []
-    single = bool(defs) and all(isinstance(v, ast.List) and len(v.elts) == 1 for v in defs)
-    ctx.check(single, 'DEFUSE', '_parse_copyall stages a single section (the first of a multi-section)',
-              'sec = [sec[0]]',
-              "the whole section list is staged: construct_tracts creates one full-text tract per section",
-              key="DEFUSE|_parse_copyall|single-sec", where=common.loc(fi, calls[0]))
+    def one_elem(v):
+        return (isinstance(v, ast.List) and len(v.elts) == 1) or (
+            isinstance(v, ast.Subscript) and isinstance(v.slice, ast.Slice) and norm(v.slice) in (':1', '0:1'))
+    single = bool(defs) and all(isinstance(v, ast.AST) and one_elem(v) for v in defs)
+    if not defs and isinstance(a[1], ast.AST) and one_elem(a[1]):
+        single = True
+    whole = bool(defs) and all(isinstance(v, ast.Call) and (dotted(v.func) or '').endswith('get_next_sec') for v in defs)
+    ctx.tri(single, whole, 'DEFUSE', '_parse_copyall stages a single section (the first of a multi-section)',
+            'one-element list',
+            "the whole section list from get_next_sec() is staged: construct_tracts creates one full-text tract per section",
+            key="DEFUSE|_parse_copyall|single-sec", where=common.loc(fi, calls[0]))
     t = [norm(s) for s in fi.node.body]
-    ctx.check('sec = self.get_next_sec()' in t and 'twprge = self.get_next_twprge()' in t, 'DEFUSE',
-              '_parse_copyall takes the first found section / Twp/Rge or the error placeholders',
-              detail_bad="copy_all no longer asks get_next_sec/get_next_twprge", key="DEFUSE|_parse_copyall|next")
+    ctx.shape('sec = self.get_next_sec()' in t and 'twprge = self.get_next_twprge()' in t, 'DEFUSE',
+              '_parse_copyall takes the first found section / Twp/Rge or the error placeholders')
     st = ctx.repo.func('ChunkParser._stage_new_tract')
     t = ' '.join(norm(s) for s in walk_local(st.node) if isinstance(s, ast.stmt))
-    ctx.check("'desc': desc" in t and "'sec': sec" in t and "'twprge': twprge" in t and 'self.tract_components.append(new)' in t,
-              'DEFUSE', '_stage_new_tract stores desc/sec/twprge as given', detail_bad="staging dict changed",
-              key="DEFUSE|_stage_new_tract")
+    ctx.shape("'desc': desc" in t and "'sec': sec" in t and "'twprge': twprge" in t and 'self.tract_components.append(new)' in t,
+              'DEFUSE', '_stage_new_tract stores desc/sec/twprge as given')
 
 
 def _fallback(ctx):
     pc = ctx.repo.func('ChunkParser.parse_chunk')
     fb = [n for n in walk_local(pc.node) if isinstance(n, ast.If) and norm(n.test) == 'not self.tract_components']
-    ctx.check(len(fb) == 1, 'TBL', 'parse_chunk falls back to copy_all when no tract was formed',
-              detail_bad="`if not self.tract_components:` fallback is gone", key="TBL|parse_chunk|fallback")
+    ctx.shape(len(fb) == 1, 'TBL', 'parse_chunk falls back to copy_all when no tract was formed')
     # must be the last thing before returning on the meaningful path
     if fb:
         cfg, _ = flow.analyse(pc.node)
